@@ -1,6 +1,7 @@
 """Correspondence (H2): the real `transform_*` / `extract_attrs` functions of /repo applied to parsed records
 vs the Lean pipelines (`Model/Transform.lean` over `Model/Dict.lean`, configured by the regenerated `Gen/Config.lean`)."""
 import datetime
+import json
 import random
 
 import numpy as np
@@ -22,10 +23,34 @@ def canon_py(obj):
     return obj
 
 
+COMPOSITE = "!composite:"
+
+
+def composite_reference(marker):
+    """the contract behind the model's composite-datetime leaf: `strptime` of the blank-separated date text plus
+    `timedelta(seconds=float(token))` (CPython); returns the ISO text or 'raises:<class>'"""
+    date, tok = marker[len(COMPOSITE):].rsplit("|", 1)
+    try:
+        d = datetime.datetime.strptime("-".join(date.split()), "%Y-%m-%d")
+        return (d + datetime.timedelta(seconds=float(tok))).isoformat()
+    except Exception as e:  # noqa: BLE001
+        return "raises:" + err_name(e)
+
+
+def composite_raises(m, err):
+    """does the model output hold a composite leaf whose reference evaluation raises `err`?"""
+    import re
+    return any(composite_reference(x.encode().decode("unicode_escape") if "\\" in x else x) == "raises:" + err
+               for x in re.findall(r"!composite:[^\"']*", json.dumps(m)))
+
+
 def match(m, py, path=""):
     """model JSON (pvalJson) vs python value; None if equal"""
     if isinstance(py, np.ndarray):
         py = [np.datetime64(int(x), "ns") for x in py.astype("datetime64[ns]").astype("int64")] if py.dtype.kind == "M" else py.tolist()
+    if "s" in m and isinstance(m["s"], str) and m["s"].startswith(COMPOSITE):
+        want = composite_reference(m["s"])
+        return None if (isinstance(py, str) and want == py) else f"{path}: composite datetime {want!r} vs {py!r}"
     if "u" in m:
         if not isinstance(py, tuple) or len(py) != len(m["u"]):
             return f"{path}: tuple mismatch model {len(m['u'])} vs {type(py).__name__}"
@@ -118,6 +143,9 @@ def real(what, data, n=None):
             "radiometric": ("radiometric_data_record", "ceos_alos2.sar_leader.radiometric_data", "transform_radiometric_data"),
             "dqs": ("data_quality_summary_record", "ceos_alos2.sar_leader.data_quality_summary", "transform_data_quality_summary"),
             "record5": ("facility_related_data_5_record", "ceos_alos2.sar_leader.facility_related_data", "transform_record5"),
+            "platform_position": ("platform_position_record", "ceos_alos2.sar_leader.platform_position", "transform_platform_position"),
+            "map_projection": ("map_projection_record", "ceos_alos2.sar_leader.map_projection", "transform_map_projection"),
+            "attitude": ("attitude_record", "ceos_alos2.sar_leader.attitude", "transform_attitude"),
         }
         rname, modname, fname = table[what]
         import importlib
@@ -144,6 +172,9 @@ def gen_cases(seed, tier):
         "radiometric": (sub(leader, ["radiometric_data"]), "radiometric_data."),
         "dqs": (sub(leader, ["data_quality_summary"]), "data_quality_summary."),
         "record5": (sub(leader, ["facility_related_data_5"]), "facility_related_data_5."),
+        "platform_position": (sub(leader, ["platform_position"]), "platform_position."),
+        "map_projection": (sub(leader, ["map_projection"])["elem"], "map_projection[]."),
+        "attitude": (sub(leader, ["attitude"]), "attitude."),
     }
     cases = []
     k = 6 if tier == "quick" else 60
@@ -151,6 +182,14 @@ def gen_cases(seed, tier):
         r = {key[len(prefix):]: v for key, v in req["sar_leader_record"].items() if key.startswith(prefix)}
         for _ in range(k):
             ov = {"number_of_channels": rng.randint(1, 16)} if what == "dqs" else {}  # 0 channels is inadmissible (transform_relative raises)
+            if what == "attitude":
+                npts = rng.choice([1, 1, 2, 3, 5, 8, 22])  # 0 points is inadmissible (transform_nested leaves an empty list)
+                ov = {"number_of_points": npts, "preamble.record_length": 16 + npts * 120 + rng.choice([0, 8, 100])}
+            if what == "map_projection" and rng.random() < 0.4:  # designators outside the table / in other spellings / without '-'
+                ov = {"map_projection_designator": rng.choice(["utm-x", "Ups-PROJECTION", "LCC-", "mer-CATOR", "XYZ-PROJECTION", "-", "UTM", "", "UTM PROJECTION", "lcc-a-b"])}
+            if what == "platform_position" and rng.random() < 0.5:  # date / seconds shapes incl. invalid ones and half-microsecond ties
+                ov = {"datetime_of_first_point.date": rng.choice(["2019 10 11", "2020  2 29", "2019 02 29", "2019-10-11", "20191011", "", "2016 12 31"]),
+                      "datetime_of_first_point.seconds_of_day": rng.choice(["86399.999", "8.639999900000000E+04", "0.0000005", "1.0000015", "12.3456785", "-1", "1e5", "nan", "inf", ""])}
             data, _, _ = synth.Builder(rng, overrides=ov, required=r, blank_prob=rng.choice([0, 0.2, 0.8]), unknown_enum_prob=0.1).build(ir)
             cases.append((what, data, None))
     for _ in range(k):
@@ -196,7 +235,8 @@ def check(seed, tier):
                 sample = {"what": w, "result": {k: repr(v) for k, v in r["ok"].items()}}
         else:
             dist["err"][r["err"]] = dist["err"].get(r["err"], 0) + 1
-            if not ("parse-err" in m and m["parse-err"] == r["err"]) and not (r["err"] == "ValueError" and has_invalid(m)):
+            if (not ("parse-err" in m and m["parse-err"] == r["err"]) and not (r["err"] == "ValueError" and has_invalid(m))
+                    and not composite_raises(m, r["err"]) and not (r["err"] == "ValueError" and "uninterpreted" in m and w == "map_projection")):
                 bad.append({"what": w, "real": r, "model": str(m)[:200]})
     return {"name": "transformers", "cases": len(cases), "distinct": len(distinct), "disagreements": bad, "distribution": dist,
             "sample": sample or {"what": cases[0][0]}}
